@@ -280,6 +280,10 @@ def run(s):
                                                                                                      "positivity, permutation, weight scaling)"])
     # the quantities of this property are DELIVERED through the writer rules (keyword -> quantity, file name, unit; a data file): C15's registry and writer-path obligations
     # are registered here as well
+    # "sum_i e_i = 1": the strain fractions the anchored classes receive are made by the task factory (tasks.py, outside the anchored files), which normalises the axial
+    # strains -- without a lattice block they are (1, 1, 1) and only that division makes them 1/3.  C02's normalisation obligation is registered here as well
+    from props import C02
+    C02.run(core.SubSession(s, lambda n: n.replace("C02.", "C01.tasks."), lambda n: n.startswith("C02.strain_fractions_are_normalised")))
     from props import C15
     C15.run(core.SubSession(s, lambda n: n.replace("C15.", "C01.delivery."), lambda n: n in ("C15.registry", "C15.writer_paths")))
     s.min_obligations = 30
